@@ -632,3 +632,17 @@ def c01_12(ctx, r):
     from .c04 import c04_5
 
     c04_5(ctx, r)
+
+
+@rule(P, "C01.13", "T1", "time-based batching: a job the batch refuses is not inside it (else it is also the first job of the next batch)", min_obligations=5)
+def c01_13(ctx, r):
+    from .c07 import c07_3
+
+    c07_3(ctx, r)
+
+
+@rule(P, "C01.14", "T1+T6", "a group listed twice is rejected up front (its jobs would be candidates of two passes of one round)", min_obligations=8)
+def c01_14(ctx, r):
+    from .c17 import c17_4
+
+    c17_4(ctx, r)
